@@ -168,6 +168,73 @@ example : optionOk ⟨"port", .int 2022⟩ = true ∧ optionOk ⟨"port", .str "
     ∧ optionOk ⟨"read-delay", .float "0.1"⟩ = true ∧ optionOk ⟨"no-such-option", .null⟩ = false := by
   decide
 
+/-- an options block that is well-formed entry by entry never makes the constructor panic -/
+theorem options_block_no_panic (os : List OptionDef) (h : os.all optionOk = true) :
+    optionsOutcome os ≠ .panics := by
+  have hall : ∀ o ∈ os, optionOutcome o ≠ .panics := by
+    intro o ho
+    have := List.all_eq_true.1 h o ho
+    simpa [optionOk] using this
+  unfold optionsOutcome
+  have htp : (os.any fun o => optionOutcome o == .panics && (o.name == "port" || o.name == "read-size"
+      || o.name == "transport-pty-height" || o.name == "transport-pty-width" || o.name == "prompt-pattern"
+      || o.name == "username-pattern" || o.name == "password-pattern" || o.name == "passphrase-pattern"
+      || o.name == "return-char" || o.name == "read-delay" || o.name == "timeout-ops" || o.name == "transport-type"
+      || o.name == "transport-system-open-args")) = false := by
+    rw [List.any_eq_false]
+    intro o ho
+    have := hall o ho
+    simp [this]
+  simp only [htp, Bool.false_eq_true, if_false]
+  split
+  · rename_i o hf
+    exact hall o (List.mem_of_find?_eq_some hf)
+  · simp
+
+example : optionOutcome ⟨"transport-system-open-args", .strList ["-o", "X=y"]⟩ = .lands "System.ExtraArgs"
+    ∧ optionOutcome ⟨"transport-type", .str "carrier-pigeon"⟩ = .badoption
+    ∧ optionsOutcome [⟨"port", .int 22⟩, ⟨"transport-type", .str "bogus"⟩, ⟨"nope", .null⟩] = .badoption
+    ∧ optionsOutcome [⟨"nope", .null⟩, ⟨"port", .str "x"⟩] = .panics := by decide
+
+/-- the generic runner executes exactly the channel operations: on a list that holds only those,
+the generic and the network interpreter do the same, whatever the run-time default level -/
+theorem generic_onx_agrees_on_channel_ops (r : String) (steps : List Step)
+    (h : steps.all genericStepOk = true) : runGenericOnX steps = runNetworkOnX r steps := by
+  induction steps with
+  | nil => rfl
+  | cons s t ih =>
+    simp only [List.all_cons, Bool.and_eq_true] at h
+    have hs : onxActionGeneric s = onxAction r s := by
+      have h1 := h.1
+      unfold genericStepOk at h1
+      unfold onxActionGeneric onxAction
+      cases hop : s.get "operation" with
+      | none => simp [hop] at h1
+      | some v =>
+        cases v with
+        | str op =>
+          rw [hop] at h1
+          simp only [Bool.or_eq_true] at h1
+          rcases h1 with h1 | h1
+          · simp [h1]
+          · have hne : (op == opChannelWrite) = false := by
+              rw [beq_iff_eq] at h1; subst h1; decide
+            simp [h1, hne]
+        | _ => simp [hop] at h1
+    simp only [runGenericOnX, runNetworkOnX, hs, ih h.2]
+
+/-- … and it silently skips the two network operations -/
+theorem generic_onx_skips_network_ops (s : Step) (op : String)
+    (hop : s.get "operation" = some (.str op)) (h : op = opAcquirePriv ∨ op = opDriverSendCommand) :
+    onxActionGeneric s = .skip := by
+  unfold onxActionGeneric
+  rw [hop]
+  have a1 : (opAcquirePriv == opChannelWrite) = false := by decide
+  have a2 : (opAcquirePriv == opChannelReturn) = false := by decide
+  have b1 : (opDriverSendCommand == opChannelWrite) = false := by decide
+  have b2 : (opDriverSendCommand == opChannelReturn) = false := by decide
+  rcases h with rfl | rfl <;> simp [a1, a2, b1, b2]
+
 /-- sibling escalate commands differ and none equals the parent's deescalate command, so a device
 built from the definition reacts deterministically -/
 theorem transitions_unambiguous : ∀ l ∈ loaded, transitionsUnambiguous l.d = true := by decide +kernel
